@@ -254,7 +254,9 @@ class C11(Check):
     mpi_jobs = int(os.environ.get("VERIF_C11_JOBS", "3"))
 
     def mpi_dir(self):
-        return os.path.join(vcheck.WORK, "c11mpi" + vcheck._SFX)
+        # private to this process: concurrent checks (other seed, other tier, a seeded tree) must not share the
+        # binary nor the per-case output files
+        return os.path.join(vcheck.WORK, "c11mpi%s-%s-%d-%d" % (vcheck._SFX, self.tier, self.seed, os.getpid()))
 
     def build_mpi(self):
         """ptgpp + cc of harness/h_term4c_mpi.jdf against the repository under test; returns None or an error text"""
@@ -337,6 +339,7 @@ class C11(Check):
                 with concurrent.futures.ThreadPoolExecutor(max_workers=self.mpi_jobs) as ex:
                     for i, res in zip(todo, ex.map(lambda i: self.run_mpi_case(i, cases[i]), todo)):
                         lines[i] = res
+            shutil.rmtree(self.mpi_dir(), ignore_errors=True)
         return lines
 
     def nontrivial_key(self, case):
@@ -380,8 +383,10 @@ class C11(Check):
                                                                "" if f["term"] else "; the taskpool never terminated"))
         if not f["term"] or f["ranks"] != int(w[1]):
             return "%s: the taskpool did not terminate on every rank (watchdog)" % what
-        if f["errors"] or f["cons"] != int(w[3]):
-            return "%s: %d wrong data, %d of %s consumers ran" % (what, f["errors"], f["cons"], w[3])
+        if f["errors"]:
+            return "%s: %d consumers read wrong data" % (what, f["errors"])
+        if f["cons"] != int(w[3]):
+            return "%s: terminated although only %d of %s consumers ran" % (what, f["cons"], w[3])
         return None
 
     def oracle(self, case, obs):
@@ -438,7 +443,9 @@ class C11(Check):
     def signature(self, case, obs):
         if case.startswith("mpi "):
             r = self.oracle(case, obs) or ""
-            return "mpi-%s-mode%s" % ("count" if "exactly once" in r else "hang" if "terminate" in r else "data", case.split()[2])
+            kind = ("count" if "exactly once" in r else "hang" if "did not terminate" in r else "data" if "wrong data" in r
+                    else "early" if "terminated although" in r else "diff")
+            return "mpi-%s-mode%s" % (kind, case.split()[2])
         r = self.oracle(case, obs) or "diff"
         key = "unsafe" if "TERMINATED while" in r or "terminated with" in r else \
               "callback" if "callback" in r and "FIN: rank" not in r else \
